@@ -197,6 +197,12 @@ def summary_violations(ctx, sums, behs, desc, want):
        want: subset of {"returned", "leak", "salt", "prom"}"""
     for i, s in enumerate(sums):
         beh = behs[i] if behs else None
+        if s.get("flood"):
+            ctx.violation({"module": "UdpNat", "kind": "metrics-flood"},
+                          "the proxy made more than 100000 metrics calls in one behaviour (%d more were dropped): packets are reported that "
+                          "nobody sent - an association goroutine is spinning (%s, behaviour %d)" % (s["flood"], desc, i + 1),
+                          {"behaviour": beh, "summary": s})
+            return
         if "returned" in want and not s.get("returned"):
             ctx.violation({"module": "UdpNat", "kind": "handle-not-returned"},
                           "PacketHandler.Handle did not return within 5 s after the listener was closed (%s, behaviour %d)" % (desc, i + 1),
